@@ -14,7 +14,7 @@ else
 fi
 ( cd "$scr" && git diff --stat | tail -1; git -c user.email=a@b -c user.name=x commit -qam mut >/dev/null 2>&1 )
 export PATH=/opt/veriftools/go1.26.8/bin:$PATH GOTOOLCHAIN=local GOPROXY=off GOSUMDB=off; unset GOWORK
-/verif/bin/cv -repo "$scr" -props "$props" -out "$scr/.ev" -known /verif/known_findings.txt 2>&1 | grep -v "^loaded" | cut -c1-600
+"${CV:-/verif/bin/cv}" -repo "$scr" -props "$props" -out "$scr/.ev" -known /verif/known_findings.txt 2>&1 | grep -v "^loaded" | cut -c1-600
 rc=${PIPESTATUS[0]}
 rm -rf "$scr"
 exit $rc
